@@ -2,14 +2,18 @@
 
     // C11 — that every recursive edge of the VM goes through push_frame / incr_depth is G-VM. BOUNDED native stand-in:
     // recursive program shapes x recursion limits on the real engine, counting the depth actually reached.
-//# ob name=recursion_box_native role=native_bounded fn=vm::{eval_macro,perform_include,push_loop,call_block}+Environment::set_recursion_limit kind=bounded bound="9 recursive program shapes (self-recursive macro, mutually recursive macros, call-block cycle, self-include, include through a macro, recursive macro doing a completed include / import per level, higher-order macro recursion without closure, recursive for-loop over 600-deep data) x recursion limits {1, 7, 50, 137, 500, requested 100000 and usize::MAX}; run on a 1 GiB-stack thread, depth counted by a filter and cut at 700" stmt="unbounded run-time recursion ends with a 'recursion limit exceeded' error once the configured limit is reached: the number of nested levels never exceeds the limit, the stored limit never exceeds 500, and no shape escapes the accounting"
+//# ob name=recursion_box_native role=native_bounded fn=vm::{eval_macro,perform_include,push_loop,call_block}+Environment::set_recursion_limit kind=bounded bound="23 recursive program shapes (every form of the include tag - name, one-element list, fallback list, ignore missing, variable / lazy / tuple list, computed name, through a macro, alternating templates -, import / from-import of the own template, recursion after a completed helper call or call block, self-recursive macro, mutually recursive macros, call-block cycle, self-include, include through a macro, recursive macro doing a completed include / import per level, higher-order macro recursion without closure, recursive for-loop over 600-deep data) x recursion limits {1, 7, 50, 137, 500, requested 100000 and usize::MAX}; run on a 1 GiB-stack thread, depth counted by a filter and cut at 700" stmt="unbounded run-time recursion ends with a 'recursion limit exceeded' error once the configured limit is reached: the number of nested levels entered never exceeds the limit (counted), the stored limit never exceeds 500, and no shape escapes the accounting"
     fn recursion_box_native() {
         use crate::{Environment, Error, ErrorKind, State};
         #[derive(Default)]
         struct Ticks(usize);
+        thread_local! { static LEVELS: std::cell::Cell<usize> = const { std::cell::Cell::new(0) }; }
+        struct Levels; impl Levels { fn get(&self) -> usize { LEVELS.with(|l| l.get()) } }
+        let res_levels = Levels;
         fn tick(state: &mut State, v: crate::value::Value) -> Result<crate::value::Value, Error> {
             let t = state.get_or_insert_extension(Ticks::default());
             t.0 += 1;
+            LEVELS.with(|l| l.set(l.get() + 1));
             if t.0 > 700 { return Err(Error::new(ErrorKind::InvalidOperation, "depth probe: more than 700 levels")); }
             Ok(v)
         }
@@ -33,6 +37,21 @@
             ("macro_with_import", "{% macro f(n) %}{{ n|tick }}{% from 'helpers' import h %}{{ h() }}{{ f(n + 1) }}{% endmacro %}{{ f(0) }}"),
             ("higher_order", "{% macro f(g) %}{{ 0|tick }}{{ g(g) }}{% endmacro %}{{ f(f) }}"),
             ("recursive_loop", "{% for x in data recursive %}{{ 0|tick }}{{ loop(x) }}{% endfor %}"),
+            // every form of the include / import tag as the recursive edge
+            ("inc_list1", "{{ 0|tick }}{% include ['inc_list1'] %}"),
+            ("inc_fallback", "{{ 0|tick }}{% include ['does-not-exist', 'inc_fallback'] %}"),
+            ("inc_fallback_ignore", "{{ 0|tick }}{% include ['does-not-exist', 'inc_fallback_ignore'] ignore missing %}"),
+            ("inc_ignore", "{{ 0|tick }}{% include 'inc_ignore' ignore missing %}"),
+            ("inc_var_list", "{{ 0|tick }}{% set c = ['x/' ~ 'y', 'inc_var_list'] %}{% include c %}"),
+            ("inc_lazy_list", "{{ 0|tick }}{% include ['nope'] + ['inc_lazy_list'] %}"),
+            ("inc_computed", "{{ 0|tick }}{% include 'inc_' ~ 'computed' %}"),
+            ("inc_tuple", "{{ 0|tick }}{% include ('nope', 'inc_tuple') %}"),
+            ("inc_via_macro_list", "{% macro again() %}{% include ['inc_via_macro_list'] %}{% endmacro %}{{ 0|tick }}{{ again() }}"),
+            ("inc_alternating", "{{ 0|tick }}{% include ['inc_alternating_b'] %}"),
+            ("import_self", "{{ 0|tick }}{% import 'import_self' as me %}"),
+            ("from_import_self", "{% macro m() %}{% endmacro %}{{ 0|tick }}{% from 'from_import_self' import m %}"),
+            ("helper_then_recurse", "{% macro h() %}h{% endmacro %}{% macro f(n) %}{{ n|tick }}{{ h() }}{{ f(n + 1) }}{% endmacro %}{{ f(0) }}"),
+            ("callblock_then_recurse", "{% macro w() %}{{ caller() }}{% endmacro %}{% macro f(n) %}{{ n|tick }}{% call w() %}c{% endcall %}{{ f(n + 1) }}{% endmacro %}{{ f(0) }}"),
         ];
         let run = move || {
             for &limit in &[1usize, 7, 50, 137, 500, 100_000, usize::MAX] {
@@ -45,15 +64,20 @@
                 env.add_template("leaf", "L").unwrap();
                 env.add_template("helpers", "{% macro h() %}h{% endmacro %}").unwrap();
                 env.add_template("macro_include_leaf", "{% from 'macro_include' import f %}{{ f(1) }}").unwrap();
+                env.add_template("inc_alternating_b", "{% include 'inc_alternating' %}").unwrap();
                 for (n, s) in shapes { env.add_template(n, s).unwrap(); }
                 for (name, _) in shapes {
                     let tmpl = env.get_template(name).unwrap();
+                    LEVELS.with(|l| l.set(0));
                     let res = tmpl.render_captured(crate::context! { data => deep(600) });
                     match res {
                         Ok(c) => panic!("{name} with limit {limit}: rendered {} bytes instead of hitting the recursion limit", c.output().len()),
                         Err(e) => {
                             assert!(!chain_has(&e, "depth probe"), "{name} with limit {limit}: recursion went past 700 levels without a recursion-limit error");
                             assert!(chain_has(&e, "recursion limit exceeded"), "{name} with limit {limit}: wrong error {e:?}");
+                            // every level costs at least one unit of depth, so no shape can be entered more often than the limit
+                            let levels = res_levels.get();
+                            assert!(levels <= stored + 1, "{name} with limit {limit}: {levels} nested levels were entered although the limit is {stored}");
                         }
                     }
                 }
